@@ -58,6 +58,36 @@ static void run_history(long idx)
     ZSTD_freeCCtx(c); ZSTD_freeDCtx(d); free(x); free(a); free(b); free(out); free(dict);
 }
 
+/* ---- "table-size seesaw": big match tables with a long history -> a small frame with a dictionary whose tables are COPIED into the context (known source size between the
+ * attach cut-off and 128 KiB) and whose index space restarts at the dictionary's -> big tables again, indices continuing from the small frame: whatever the first frame left in
+ * the upper part of the table area must not be visible to the third. The third frame re-uses the first frame's data at the offset where its indices coincide. */
+static void run_seesaw(long idx)
+{
+    vrng r = vr_make(V.seed, 415, (uint64_t)idx);
+    size_t const n0 = (size_t)(1u << 20) + vr_u64(&r, 3u << 20); uint8_t* X = (uint8_t*)malloc(n0 + 64); int const fam = vr_chance(&r, 1, 2) ? DF_TEXT : (int)vr_u(&r, DF_NB); gen_data(&r, X, n0, fam);
+    size_t const dl = 1000 + vr_u(&r, 30000); size_t const n1 = (33u << 10) + vr_u(&r, 90000); uint8_t* dict = (uint8_t*)malloc(dl); uint8_t* x1 = (uint8_t*)malloc(n1); gen_data(&r, dict, dl, DF_TEXT); gen_data(&r, x1, n1, DF_TEXT); if (dict[0] == 0x37 && dict[1] == 0xA4) dict[0] ^= 1;
+    int const bigLevel = (int)vr_range(&r, 1, 9), bigHash = (int)vr_range(&r, 17, 20), smallHash = (int)vr_range(&r, 8, 13), wl = (int)vr_range(&r, 20, 23);
+    size_t const off2 = V_MIN(n0 - 200000, dl + n1 + (vr_chance(&r, 1, 4) ? vr_u(&r, 64) : 0)); size_t const n2 = V_MIN(n0 - off2, (size_t)(200000 + vr_u(&r, 900000)));
+    size_t const cap = ZSTD_compressBound(n0) + 64; uint8_t* a = (uint8_t*)malloc(cap); uint8_t* b = (uint8_t*)malloc(cap); uint8_t* out = (uint8_t*)malloc(n0 + 64);
+    ZSTD_CCtx* c = ZSTD_createCCtx(); ZSTD_DCtx* d = ZSTD_createDCtx();
+    char desc[300]; snprintf(desc, sizeof desc, "seesaw %ld: F0 n=%zu level=%d hashLog=%d wlog=%d | F1 n=%zu dict=%zu hashLog=%d | F2 = F0 data at %zu, n=%zu fam=%s", idx, n0, bigLevel, bigHash, wl, n1, dl, smallHash, off2, n2, v_df_name[fam]);
+    for (int f = 0; f < 3; f++) {
+        const uint8_t* src = f == 0 ? X : f == 1 ? x1 : X + off2; size_t const n = f == 0 ? n0 : f == 1 ? n1 : n2;
+        size_t cs[2];
+        for (int who = 0; who < 2; who++) { ZSTD_CCtx* cc = who == 0 ? c : ZSTD_createCCtx(); ZSTD_CCtx_reset(cc, ZSTD_reset_session_and_parameters);
+            ZSTD_CCtx_setParameter(cc, ZSTD_c_compressionLevel, f == 1 ? 1 : bigLevel); ZSTD_CCtx_setParameter(cc, ZSTD_c_hashLog, f == 1 ? smallHash : bigHash); ZSTD_CCtx_setParameter(cc, ZSTD_c_chainLog, f == 1 ? smallHash : bigHash); ZSTD_CCtx_setParameter(cc, ZSTD_c_windowLog, f == 1 ? 17 : wl); ZSTD_CCtx_setParameter(cc, ZSTD_c_checksumFlag, 1);
+            if (f == 1) ZSTD_CCtx_loadDictionary(cc, dict, dl);
+            cs[who] = ZSTD_compress2(cc, who == 0 ? a : b, cap, src, n); if (who) ZSTD_freeCCtx(cc); }
+        if (ZSTD_isError(cs[0])) { v_viol("wear:compression-fails-on-a-used-context", "%s frame %d: %s", desc, f, ZSTD_getErrorName(cs[0])); break; }
+        {   size_t const ds = f == 1 ? ZSTD_decompress_usingDict(d, out, n, a, cs[0], dict, dl) : ZSTD_decompressDCtx(d, out, n, a, cs[0]);
+            if (ZSTD_isError(ds) || ds != n || memcmp(out, src, n)) v_viol("wear:frame-from-a-used-context-does-not-round-trip", "%s frame %d: %s", desc, f, ZSTD_isError(ds) ? ZSTD_getErrorName(ds) : "mismatch"); }
+        if (!ZSTD_isError(cs[1]) && (cs[0] != cs[1] || memcmp(a, b, cs[0]))) v_viol("wear:used-context-output-differs-from-fresh-context", "%s frame %d: used %zu bytes, fresh %zu bytes", desc, f, cs[0], cs[1]);
+        v_stat("frames", 1); v_stat("bytes", (long)n);
+    }
+    v_stat("seesaw_histories", 1); v_sample("%s", desc);
+    ZSTD_freeCCtx(c); ZSTD_freeDCtx(d); free(X); free(dict); free(x1); free(a); free(b); free(out);
+}
+
 /* ---- genuine index overflow: many frames through one context, no parameter change => indices continue */
 static void run_real(long idx)
 {
@@ -138,6 +168,6 @@ int main(int argc, char** argv)
     v_init(argc, argv); vp_trace_on = 0;
     g_maxSize = (size_t)v_opt_long("maxsize", V.thorough ? (2 << 20) : (1 << 20));
     const char* mode = v_opt("mode", "hist");
-    for (long i = V.from; i < V.to; i++) { v_case(i); v_budget(1800); if (!strcmp(mode, "real")) run_real(i); else if (!strcmp(mode, "long")) run_long(i); else run_history(i); }
+    for (long i = V.from; i < V.to; i++) { v_case(i); v_budget(1800); if (!strcmp(mode, "real")) run_real(i); else if (!strcmp(mode, "long")) run_long(i); else if (!strcmp(mode, "seesaw")) run_seesaw(i); else run_history(i); }
     return v_finish();
 }
